@@ -606,3 +606,128 @@ def smin(a, b):
 def term_of(x):
     """z3 Real term of a python/sym value (for oracle formulas)."""
     return _real(to_term(x))
+
+
+# --------------------------------------------------------------------------------------
+# minimal complex numbers over symbolic reals (characteristic exponents at -i, C10 / C20)
+
+
+class SymComplex:
+    __slots__ = ("re", "im")
+
+    def __init__(self, re, im=0.0):
+        self.re, self.im = re, im
+
+    @staticmethod
+    def lift(x):
+        if isinstance(x, SymComplex):
+            return x
+        if isinstance(x, complex):
+            return SymComplex(x.real, x.imag)
+        return SymComplex(x, 0.0)
+
+    @property
+    def real(self):
+        return self.re
+
+    @property
+    def imag(self):
+        return self.im
+
+    def conjugate(self):
+        return SymComplex(self.re, -self.im)
+
+    def __add__(self, o):
+        o = SymComplex.lift(o)
+        return SymComplex(self.re + o.re, self.im + o.im)
+
+    __radd__ = __add__
+
+    def __neg__(self):
+        return SymComplex(-self.re, -self.im)
+
+    def __sub__(self, o):
+        o = SymComplex.lift(o)
+        return SymComplex(self.re - o.re, self.im - o.im)
+
+    def __rsub__(self, o):
+        return SymComplex.lift(o) - self
+
+    def __mul__(self, o):
+        o = SymComplex.lift(o)
+        return SymComplex(self.re * o.re - self.im * o.im, self.re * o.im + self.im * o.re)
+
+    __rmul__ = __mul__
+
+    def __truediv__(self, o):
+        o = SymComplex.lift(o)
+        den = o.re * o.re + o.im * o.im
+        return SymComplex((self.re * o.re + self.im * o.im) / den, (self.im * o.re - self.re * o.im) / den)
+
+    def __rtruediv__(self, o):
+        return SymComplex.lift(o) / self
+
+    def __pow__(self, n):
+        if isinstance(n, int) and n >= 0:
+            r = SymComplex(1.0, 0.0)
+            for _ in range(n):
+                r = r * self
+            return r
+        if isinstance(n, int):
+            return 1 / (self ** (-n))
+        raise Unsupported("complex power with a non-integer exponent")
+
+    def is_real(self):
+        """im == 0 syntactically or as a python zero"""
+        if is_sym(self.im):
+            c = concrete_value(z3.simplify(self.im.t))
+            return c is not None and c == 0
+        return self.im == 0
+
+    def exp(self):
+        """exp(re + i im): supported when im is (syntactically) zero"""
+        from .special import sym_exp
+
+        if not self.is_real():
+            raise Unsupported("exp of a complex number with a symbolic imaginary part")
+        return SymComplex(sym_exp(self.re) if is_sym(self.re) else math.exp(self.re), 0.0)
+
+    def log(self):
+        from .special import sym_log
+
+        if not self.is_real():
+            raise Unsupported("log of a complex number with a non-zero imaginary part")
+        return SymComplex(sym_log(self.re) if is_sym(self.re) else math.log(self.re), 0.0)
+
+    def __repr__(self):
+        return f"SymComplex({self.re}, {self.im})"
+
+    def __deepcopy__(self, memo):
+        return self
+
+
+def _complex_hook(op):
+    def f(self, o):
+        if isinstance(o, (complex, SymComplex)):
+            return getattr(SymComplex(self, 0.0), op)(o)
+        return NotImplemented
+
+    return f
+
+
+_orig = {n: getattr(SymReal, n) for n in ("__add__", "__radd__", "__sub__", "__rsub__", "__mul__", "__rmul__", "__truediv__", "__rtruediv__")}
+
+
+def _wrap_complex(name):
+    orig = _orig[name]
+
+    def f(self, o):
+        if isinstance(o, (complex, SymComplex)):
+            return getattr(SymComplex(self, 0.0), name)(o)
+        return orig(self, o)
+
+    return f
+
+
+for _n in _orig:
+    setattr(SymReal, _n, _wrap_complex(_n))
